@@ -108,6 +108,33 @@ impl EntityReactors
     }
 }
 
+#[cfg(feature = "verif")]
+impl EntityReactors
+{
+    pub(crate) fn verif_fill(&self, entity: Entity, tables: &mut Vec<crate::verif::VerifTableEntry>)
+    {
+        use crate::verif::{VerifTableEntry, VerifTableKind};
+        for (rtype, handle) in self.reactors.iter()
+        {
+            let (kind, type_id) = match *rtype
+            {
+                EntityReactionType::Insertion(id) => (VerifTableKind::EntityInsertion, id),
+                EntityReactionType::Mutation(id)  => (VerifTableKind::EntityMutation, id),
+                EntityReactionType::Removal(id)   => (VerifTableKind::EntityRemoval, id),
+                EntityReactionType::Event(id)     => (VerifTableKind::EntityEvent, id),
+            };
+            let reactor = (*handle.sys_command(), matches!(handle, ReactorHandle::AutoDespawn(_)));
+            match tables.iter_mut().find(|e| e.kind == kind && e.type_id == Some(type_id) && e.entity == Some(entity))
+            {
+                Some(entry) => entry.reactors.push(reactor),
+                None => tables.push(
+                    VerifTableEntry{ kind, type_id: Some(type_id), entity: Some(entity), reactors: vec![reactor] }
+                ),
+            }
+        }
+    }
+}
+
 impl Default for EntityReactors
 {
     fn default() -> Self
